@@ -201,8 +201,28 @@ func TestC17_Shipped(t *testing.T) {
 			}
 			mu.Unlock()
 		}
+		// sweep: whatever its origin (stacked or generated text included), no file
+		// rule of a full build may keep a read + unconfined-fallback access without target
+		leftovers := 0
+		for _, f := range listFiles(bf.Apparmord()) {
+			if strings.HasPrefix(f, "disable/") {
+				continue
+			}
+			for _, line := range strings.Split(readFile(filepath.Join(bf.Apparmord(), f)), "\n") {
+				toks := ruleTokens(line)
+				for i, tk := range toks {
+					if i > 0 && isRulePath(toks[i-1]) && reFspAccess.MatchString(strings.NewReplacer("pu", "PU", "ux", "Ux").Replace(tk)) && !containsStr(toks, "->") {
+						leftovers++
+						mu.Lock()
+						ev.Violate(map[string]any{"config": c, "file": f, "path": strings.ToLower(toks[i-1]), "ordinal": 0}, "", "%s: built file %s still holds %q", c, f, strings.TrimSpace(line))
+						t.Errorf("%s: built file %s still holds %q", c, f, strings.TrimSpace(line))
+						mu.Unlock()
+					}
+				}
+			}
+		}
 		mu.Lock()
-		ev.Sample(map[string]any{"config": c.String(), "rules_checked": found, "rules_absent_in_this_build": absent})
+		ev.Sample(map[string]any{"config": c.String(), "rules_checked": found, "rules_absent_in_this_build": absent, "leftover_fallback_rules_anywhere": leftovers})
 		if found < 100 {
 			ev.Note("INFRA: only %d rules found in build %s", found, c)
 			t.Errorf("INFRA: only %d of %d rules located in build %s", found, len(rules), c)
